@@ -149,7 +149,7 @@ def run(ctx):
         if (isinstance(val, tuple) and val[0] == "clone" and list_of(val[1]) == "AB") or list_of(val) == "AB":
             # (a copy of the list, or a shared borrow of the live list: the borrow checker admits no write while it is read)
             got = True
-        elif isinstance(val, tuple) and val[0] == "call" and method_name(val[1]) == "new" and not val[2]:
+        elif (isinstance(val, tuple) and val[0] == "call" and method_name(val[1]) == "new" and not val[2]) or mir.strip(val) == T("array", ()):
             got = False
         else:
             got = None
@@ -172,7 +172,7 @@ def run(ctx):
             if (isinstance(val, tuple) and val[0] == "clone" and list_of(val[1]) == "AB") or list_of(val) == "AB":
             # (a copy of the list, or a shared borrow of the live list: the borrow checker admits no write while it is read)
                 got = True
-            elif isinstance(val, tuple) and val[0] == "call" and method_name(val[1]) == "new" and not val[2]:
+            elif (isinstance(val, tuple) and val[0] == "call" and method_name(val[1]) == "new" and not val[2]) or mir.strip(val) == T("array", ()):
                 got = False
             else:
                 got = None
